@@ -1,7 +1,7 @@
 """C02 -- put then restore returns the exact entry to its exact original path."""
 from .common import *  # noqa
 from .readroles import *  # noqa
-from .putroles import PutRoles
+from .putroles import PutRoles, candidate_sites
 from .c15 import classify
 
 EXPLANATION = (
@@ -18,6 +18,11 @@ EXPLANATION = (
 ASSUMPTIONS = ['A1/A2 as for C01', 'os.path.join keeps an absolute second argument']
 MINIMUM = {'R02.1': 3, 'R02.2': 4, 'R02.3': 2, 'R02.4': 2}
 
+
+# rules of sibling properties that are necessary conditions of this one too
+# (evaluated by the sibling module on the same graphs, reported under this property)
+ALSO = {'C10': {'R10.4': 'a freshly trashed payload must not be purged as an orphan before it can be '
+                  'restored'}}
 
 def enum_members(ctx, cls):
     return sorted(k for k, v in cls.attrs.items() if not k.startswith('_'))
@@ -238,12 +243,14 @@ def check(ctx):
                     if isinstance(a, TupleT):
                         cand_vols |= alt_ids(a.items[1])
         rel_vols = set()
-        for n_ in pr.b.nodes('append'):
-            for a in flat(n_.data['value']):
-                if isinstance(a, Obj) and 'path_maker_type' in a.fields and \
-                        isinstance(strip(a.fields['path_maker_type']), EnumVal) and \
-                        strip(a.fields['path_maker_type']).name == 'RelativePaths':
-                    rel_vols |= alt_ids(a.fields.get('volume', NONE))
+        for a in pr.candidates_for(w.id):
+            if 'path_maker_type' in a.fields and \
+                    isinstance(strip(a.fields['path_maker_type']), EnumVal) and \
+                    strip(a.fields['path_maker_type']).name == 'RelativePaths':
+                rel_vols |= alt_ids(a.fields.get('volume', NONE))
+        own_vols = set()
+        for a in pr.candidates_for(w.id):
+            own_vols |= alt_ids(a.fields.get('volume', NONE))
         for s_ in strips:
             ctx.ob('R02.4', 'the prefix stripped is, for every relative candidate, the volume '
                             'paired with that candidate', rel_vols <= alt_ids(s_), node=w,
@@ -253,7 +260,6 @@ def check(ctx):
             extra = [a for a in flat(s_) if cid(a) not in cand_vols and
                      not any(is_call(strip(a), 'os.path.abspath') for _ in [0])]
             ctx.ob('R02.4', 'the prefix stripped by the writer is the candidate\'s volume',
-                   alt_ids(s_) & cand_vols == (alt_ids(s_) & cand_vols) and
-                   bool(alt_ids(s_) & cand_vols), node=w,
+                   bool(alt_ids(s_)) and alt_ids(s_) <= own_vols, node=w,
                    message='the writer strips %s, which is not the volume paired with the '
                            'trash directory' % short(s_, 80))
